@@ -58,6 +58,11 @@ type Config struct {
 	// depends on the mapping used and is described in the Part 6.
 	SecurityMode ua.MessageSecurityMode
 
+	// AcceptSecurity is consulted by a server-side channel for every
+	// OpenSecureChannel request. If it is set and returns false for the
+	// requested security policy and mode the request is refused.
+	AcceptSecurity func(policyURI string, mode ua.MessageSecurityMode) bool
+
 	// AutoReconnect will make sure that once communication is restored,
 	// the old session is used whenever possible and that Susbcription data is not missed.
 	// You may choose to use AutoReconnect (true by default) or do it manually.
